@@ -350,6 +350,8 @@ func scriptNames(scripts [][]sx.Step) string {
 		}
 		for _, st := range sc {
 			switch {
+			case st.Err == context.Canceled:
+				s += "cE" // the source's own error happens to be context.Canceled
 			case st.Err != nil:
 				s += "E"
 			case st.Block:
@@ -424,6 +426,9 @@ func All() []Scenario {
 		streamMerge([][]sx.Step{append(vals(0, 1), e)}, -1, false),
 		streamMerge([][]sx.Step{append(vals(0, 1), e), vals(10, 2)}, -1, true),
 		streamMerge([][]sx.Step{vals(0, 1), append(vals(10, 1), e)}, -1, false),
+		// an input whose own error is context.Canceled
+		streamMerge([][]sx.Step{{{Err: context.Canceled}}}, -1, false),
+		streamMerge([][]sx.Step{append(vals(0, 1), sx.Step{Err: context.Canceled}), vals(10, 1)}, -1, false),
 		streamMerge([][]sx.Step{vals(0, 2), vals(10, 1)}, 0, false),
 		streamMerge([][]sx.Step{vals(0, 2), vals(10, 1)}, 1, true),
 		streamMerge([][]sx.Step{append(vals(0, 1), b), vals(10, 1)}, 2, false),
